@@ -82,14 +82,18 @@ def fingerprint():
             if k.startswith("__"):
                 continue
             r = _data_repr(v)
-            if r is not None:
+            # "its own constant tables": everything public in the constants modules, and names
+            # that are constants by convention (ALL_CAPS) elsewhere.  Lower-case / private
+            # module data (loggers, locks, statistics counters, caches) is not a constant table;
+            # whether such state is harmful is decided by the behavioural monitors.
+            if r is not None and not k.startswith("_") and (".constants" in name or k.upper() == k):
                 fp["%s.%s" % (name, k)] = r
             if isinstance(v, type) and getattr(v, "__module__", "").startswith("cvss"):
                 for ck, cv in sorted(vars(v).items()):
                     if ck.startswith("__"):
                         continue
                     rr = _data_repr(cv)
-                    if rr is not None:
+                    if rr is not None and not ck.startswith("_"):
                         fp["%s.%s.%s" % (name, k, ck)] = rr
                 fp["%s.%s.<mro>" % (name, k)] = repr([c.__name__ for c in v.__mro__])
     c = decimal.getcontext()
